@@ -66,6 +66,9 @@ type Input struct {
 	Ms      []Msg  `json:"ms,omitempty"`
 	N       int    `json:"n,omitempty"`
 	Code    string `json:"code,omitempty"`
+	ID      uint64 `json:"id,omitempty"`
+	// Straddle (with A = "ack"): AckResult is held at its gate while the receiver handles response R
+	Straddle bool `json:"straddle,omitempty"`
 }
 
 // Runner drives one client.
@@ -649,6 +652,65 @@ func (rn *Runner) Step(in Input) error {
 		defer func() { _ = snaps }()
 		rn.lastSnaps = snaps
 		rn.Sink.Emit(Event{"ev": "cdeliver", "r": in.R, "st": rn.state(), "snaps": rn.lastSnaps})
+	case "ack":
+		if rn.c == nil {
+			return nil
+		}
+		if !in.Straddle || rn.strm == nil || rn.recvDead || in.R == nil {
+			var err error
+			if !timed(func() { err = rn.c.AckResult(&client.OpResult{OperationID: in.ID}) }) {
+				rn.hang("ack")
+				return nil
+			}
+			rn.Sink.Emit(Event{"ev": "cack", "id": in.ID, "err": err != nil, "st": rn.state()})
+			return nil
+		}
+		// AckResult is held between filtering the result queue and installing it while the receiver handles a response
+		before, errs0 := rn.strm.RecvEntered(), rn.readErrs()
+		var armed atomic.Int32
+		armed.Store(1)
+		atGate, release := make(chan struct{}), make(chan struct{})
+		eg := func(site string) {
+			if site == "ack.install" && armed.CompareAndSwap(1, 2) {
+				close(atGate)
+				<-release
+			}
+		}
+		rn.extraGate.Store(&eg)
+		ackErr := make(chan error, 1)
+		go func() { ackErr <- rn.c.AckResult(&client.OpResult{OperationID: in.ID}) }()
+		if rn.GateMissing == 0 {
+			select {
+			case <-atGate:
+			case <-time.After(2 * time.Second):
+				rn.GateMissing++
+			}
+		}
+		ok := rn.strm.Deliver(concResp(in.R))
+		// the receiver either finishes (the queue was not locked) or is parked behind the lock AckResult holds
+		for dl := time.Now().Add(20 * time.Millisecond); ok && time.Now().Before(dl) && rn.strm.RecvEntered() == before; {
+			time.Sleep(100 * time.Microsecond)
+		}
+		armed.Store(0)
+		close(release)
+		var aerr error
+		select {
+		case aerr = <-ackErr:
+		case <-time.After(limit):
+			rn.extraGate.Store(nil)
+			rn.hang("ack")
+			return nil
+		}
+		rn.extraGate.Store(nil)
+		for dl := time.Now().Add(limit); ok && time.Now().Before(dl) && rn.strm.RecvEntered() == before && rn.readErrs() == errs0; {
+			time.Sleep(50 * time.Microsecond)
+		}
+		time.Sleep(100 * time.Microsecond)
+		rn.Sink.Emit(Event{"ev": "cack", "id": in.ID, "err": aerr != nil})
+		if ok {
+			rn.recvDead = rn.readErrs() > errs0
+			rn.Sink.Emit(Event{"ev": "cdeliver", "r": in.R, "st": rn.state(), "snaps": []any{}})
+		}
 	case "recvfail":
 		if rn.strm == nil || rn.recvDead {
 			return nil
@@ -813,6 +875,7 @@ func Random(r *rand.Rand, n int) []Input {
 	}
 	var id uint64
 	open := map[uint64]string{} // ids outstanding -> last status delivered
+	acked := map[uint64]bool{}
 	started := false
 	mk := func() *Msg {
 		k := 1 + r.Intn(3)
@@ -862,6 +925,25 @@ func Random(r *rand.Rand, n int) []Input {
 			ins = append(ins, Input{A: "q", M: mk()})
 		case x < 50:
 			ins = append(ins, Input{A: "q", M: &Msg{K: "elec", ID: []int{0, 1 + r.Intn(4)}}})
+		case x >= 96 && started && len(acked) < 6:
+			// the application acknowledges a result (half of the time while the receiver handles the next response)
+			cand := []uint64{}
+			for i := uint64(1); i <= id; i++ {
+				if _, pending := open[i]; !pending && !acked[i] {
+					cand = append(cand, i)
+				}
+			}
+			if len(cand) == 0 {
+				continue
+			}
+			a := Input{A: "ack", ID: cand[r.Intn(len(cand))]}
+			acked[a.ID] = true
+			if o := ids(); len(o) > 0 && r.Intn(2) == 0 {
+				good := Res{ID: o[r.Intn(len(o))], St: "FAILED"}
+				delete(open, good.ID)
+				a.Straddle, a.R = true, &Resp{K: "res", Results: []Res{good}}
+			}
+			ins = append(ins, a)
 		case x < 80 && started:
 			// a response: mostly protocol-conformant
 			switch y := r.Intn(20); {
